@@ -4,6 +4,7 @@ CONSTANTS
   NCalls = 1
   Sections <- Sec7
   MaxPreempt = 3
+  MinListAtFork = 0
   Forkers <- Fork1
   AtFork = "locked"
   Defects <- NoDefects
